@@ -161,9 +161,9 @@ def TT (g : Graph) (x : Int) (sub : Graph) (anchors : List Nat) : List Triple :=
 def G2 (g : Graph) (x : Int) (sub : Graph) (anchors : List Nat) : Graph :=
   addNewFrom (G1 g sub) (TT g x sub anchors)
 
-theorem replaceNode_eq (g : Graph) (x : Int) (sub : Graph) (anchors : List Nat) :
-    replaceNode g x sub anchors = relabelGraph ((G2 g x sub anchors).removeNode x) 0 := by
-  unfold replaceNode G2 TT
+theorem replaceNodeLen_eq (g : Graph) (x : Int) (sub : Graph) (anchors : List Nat) :
+    replaceNodeLen g x sub anchors = relabelGraph ((G2 g x sub anchors).removeNode x) 0 := by
+  unfold replaceNodeLen replaceNodeAt G2 TT
   simp only [shift_nodes_length]
   by_cases hm : sub.nodes.length > 0
   · simp only [hm, if_true, reattach_eq]; rfl
@@ -330,19 +330,19 @@ theorem unren_ne (x a : Int) : unren x a ≠ x := by
 
 /-- the bonds of the result are those of the graph before the renumbering, at the old names -/
 theorem Dom.result_labels (d : Dom g x sub anchors) (a b : Int) :
-    labelsBetween (replaceNode g x sub anchors) a b
+    labelsBetween (replaceNodeLen g x sub anchors) a b
       = labelsBetween (G2 g x sub anchors) (unren x a) (unren x b) := by
-  rw [replaceNode_eq]
+  rw [replaceNodeLen_eq]
   unfold relabelGraph labelsBetween
   rw [relabelCopy_edgeData d.w3 d.inverts, removeNode_edgeData]
   simp [unren_ne]
 
-theorem Dom.w4 (d : Dom g x sub anchors) : WF (replaceNode g x sub anchors) := by
-  rw [replaceNode_eq]; exact WF_relabelCopy d.w3 d.inverts
+theorem Dom.w4 (d : Dom g x sub anchors) : WF (replaceNodeLen g x sub anchors) := by
+  rw [replaceNodeLen_eq]; exact WF_relabelCopy d.w3 d.inverts
 
 /-- T2 under `Dom` -/
 theorem Dom.labels (d : Dom g x sub anchors) (a b : Int) :
-    labelsBetween (replaceNode g x sub anchors) a b
+    labelsBetween (replaceNodeLen g x sub anchors) a b
       = specLabelsOf (incOfCompose g x sub) g x sub anchors a b := by
   rw [d.result_labels, d.G2_labels]
   have hx := d.x_range
